@@ -6,7 +6,7 @@ import (
 
 // relation classes between the two operands of a binary group operation
 var relClasses = []string{"independent", "equal_same_rep", "equal_other_rep", "neg_same_rep", "neg_other_rep",
-	"id_left", "id_right", "id_both", "same_x_other", "same_y_other", "base_involved"}
+	"id_left", "id_right", "id_both", "same_x_other", "same_y_other", "base_involved", "same_x_plus_y", "same_x_minus_y"}
 
 // setupPair puts P in E[a] and Q in E[b] according to the relation class, in any representations.
 func (m *M) setupPair(a, b int, rel string) { m.setupPairLam(a, b, rel, "", "") }
@@ -49,6 +49,16 @@ func (m *M) setupPairLam(a, b int, rel, la, lb string) {
 	case "same_y_other":
 		m.putPoint(a, x, y, lamA())
 		m.putPoint(b, mulmod(x, beta, bigP), y, lamB())
+	case "same_x_plus_y", "same_x_minus_y":
+		// two DIFFERENT points on a common line of slope -1 (resp. +1): x + y (resp. x - y) coincide
+		for {
+			x, y = m.randPoint()
+			if qx, qy := lineSibling(x, y, rel == "same_x_plus_y"); qx != nil {
+				m.putPoint(a, x, y, lamA())
+				m.putPoint(b, qx, qy, lamB())
+				break
+			}
+		}
 	case "id_left":
 		m.putIdentity(a, m.rng.Intn(4))
 		m.putPoint(b, x, y, lamB())
@@ -66,6 +76,36 @@ func (m *M) setupPairLam(a, b int, rel, la, lb string) {
 			m.putPoint(b, x, y, lamB())
 		}
 	}
+}
+
+// lineSibling returns another curve point on the line through (x, y) of slope -1 (plus) or +1: the points of the
+// curve with y = c - x (resp. y = x + c) are the roots of a cubic in x, one of which is known.
+func lineSibling(x, y *big.Int, plus bool) (*big.Int, *big.Int) {
+	// y = s*X + c with s = -1 or +1; substitute into y^2 = X^3 + 7:  X^3 - X^2 - 2 s c X + (7 - c^2) = 0  (s^2 = 1)
+	sgn := big.NewInt(1)
+	if plus {
+		sgn = new(big.Int).Sub(bigP, one)
+	}
+	c := new(big.Int).Sub(y, mulmod(sgn, x, bigP))
+	c.Mod(c, bigP)
+	// sum of roots = 1, so the two other roots r satisfy r1 + r2 = 1 - x and r1 r2 = (c^2 - 7) / x  (x != 0 on this curve)
+	sum := new(big.Int).Sub(one, x)
+	sum.Mod(sum, bigP)
+	prod := new(big.Int).Sub(mulmod(c, c, bigP), big7)
+	prod = mulmod(new(big.Int).Mod(prod, bigP), new(big.Int).ModInverse(x, bigP), bigP)
+	disc := new(big.Int).Sub(mulmod(sum, sum, bigP), new(big.Int).Lsh(prod, 2))
+	disc.Mod(disc, bigP)
+	sq := new(big.Int).ModSqrt(disc, bigP)
+	if sq == nil {
+		return nil, nil
+	}
+	r := mulmod(new(big.Int).Mod(new(big.Int).Add(sum, sq), bigP), new(big.Int).ModInverse(two, bigP), bigP)
+	ry := new(big.Int).Add(mulmod(sgn, r, bigP), c)
+	ry.Mod(ry, bigP)
+	if r.Cmp(x) == 0 || mulmod(ry, ry, bigP).Cmp(new(big.Int).Mod(new(big.Int).Add(new(big.Int).Exp(r, big.NewInt(3), bigP), big7), bigP)) != 0 {
+		return nil, nil
+	}
+	return r, ry
 }
 
 // genC02: Add / Subtract / Double / Negate on every relation class, every aliasing, chained so that
@@ -117,6 +157,15 @@ func genC02(m *M, budget int) {
 				m.ERescale(r, m.lambda(m.anyLam()))
 				m.EAdd(m.rng.Intn(4), r)
 			}
+		}
+		// representations whose Z^2 has boundary Montgomery limbs (doubling and addition multiply Z-products by b3)
+		for i := 0; i < 4; i++ {
+			x, y := m.randPoint()
+			m.putPoint(0, x, y, "sq_mont_window")
+			m.ESet(1, 0)
+			m.EDouble(0)
+			m.EAdd(1, 1)
+			m.EEqual(0, 1)
 		}
 		// points with a coordinate (canonical or in the Montgomery domain) in a boundary window, Z = 1
 		for i := 0; i < 5; i++ {
@@ -177,6 +226,26 @@ func genC05(m *M, budget int) {
 			m.EEqual(0, 1)
 			m.EEqual(1, 0)
 		}
+		if m.raw && c%2 == 0 {
+			// representations whose Z has exactly ONE non-zero stored limb (each position in turn), or whose stored limbs
+			// are those of 0 / 1 with one limb replaced: zero tests that look at a part of the value
+			x, y := m.randPoint()
+			pos := uint(64 * ((c / 2) % 4))
+			wv := new(big.Int).Lsh(new(big.Int).SetUint64(m.rng.Uint64()|1), pos)
+			if (c/8)%2 == 1 {
+				wv = new(big.Int).Lsh(big.NewInt(int64(1+m.rng.Intn(9))), pos)
+			}
+			l := mulmod(new(big.Int).Mod(wv, bigP), rInvP, bigP)
+			m.class("rep:single_stored_limb")
+			m.ESetRaw(2, mulmod(x, l, bigP), mulmod(y, l, bigP), l)
+			m.EIsIdentity(2)
+			m.EIdentity(3)
+			m.EEqual(2, 3)
+			m.EEqual(3, 2)
+			m.putPoint(3, x, y, "mont_near_const")
+			m.EEqual(2, 3)
+			m.EIsIdentity(3)
+		}
 		if c%3 == 0 {
 			x, y, cls := m.boundaryPoint()
 			m.class("boundary:" + cls)
@@ -233,6 +302,15 @@ func genC04(m *M, budget int) {
 				m.EEncode(2)
 				m.EEncodeUnc(2)
 				m.EXCoord(2)
+			}
+		}
+		// representations whose Z is, limb-wise, almost the field's 1 (or 0, -1): "is Z one?" shortcuts live here
+		for i := 0; i < 8; i++ {
+			x, y := m.randPoint()
+			m.putPoint(0, x, y, "mont_near_const")
+			m.EEncode(0)
+			if i%2 == 0 {
+				m.EEncodeUnc(0)
 			}
 		}
 		// extreme coordinates: the encoders must emit them and the decoders take them back
@@ -574,7 +652,7 @@ func secp256k1BaseEncoding() []byte {
 func genC01(m *M, nFull, nSmall int) {
 	fullClasses := []string{"minus_one", "word_structure", "word_boundary", "half_up", "word_structure", "pow2_255", "top_bit_set",
 		"word_boundary", "dense", "limb_pattern", "word_structure", "near_n", "random", "minus_two", "word_boundary", "half_down",
-		"word_structure", "top_bit_set", "random"}
+		"word_structure", "top_bit_set", "random", "mont_window", "mont_near_const", "mont_window"}
 	smallClasses := []string{"zero", "one", "two", "three", "small", "small", "sparse", "pow2"}
 	i := 0
 	for done := 0; done < nFull; done++ {
